@@ -8,6 +8,7 @@ import json
 import os
 import re
 import shutil
+import signal
 import subprocess
 import sys
 import tempfile
@@ -185,16 +186,20 @@ def run_tlc(module, cfg, *, workers=16, timeout=600, env=None, extra_args=None, 
             jopts = (jopts + " -Xss" + xss).strip()
         if jopts:
             e["JAVA_TOOL_OPTIONS"] = jopts
+        # own process group: a timeout kills THIS model-checker run (wrapper script + JVM) and nothing else - other
+        # checks may be running their own TLC at the same time
+        pr = subprocess.Popen(args, cwd=d, env=e, stdout=subprocess.PIPE, stderr=subprocess.STDOUT, text=True,
+                              errors="replace", start_new_session=True)
         try:
-            p = subprocess.run(args, cwd=d, env=e, stdout=subprocess.PIPE, stderr=subprocess.STDOUT,
-                               timeout=timeout, text=True, errors="replace")
-            out = p.stdout
-        except subprocess.TimeoutExpired as ex:
-            out = (ex.stdout or b"")
-            if isinstance(out, bytes):
-                out = out.decode("utf8", "replace")
+            out, _ = pr.communicate(timeout=timeout)
+        except subprocess.TimeoutExpired:
             res.timed_out = True
-            subprocess.run(["pkill", "-f", "tlc2.TL[C]"], check=False)
+            try:
+                os.killpg(pr.pid, signal.SIGKILL)
+            except ProcessLookupError:
+                pass
+            out, _ = pr.communicate()
+            out = out or ""
         parse_tlc_output(out, res)
         if keep:
             for name in keep:
@@ -240,13 +245,19 @@ def run_apalache(module, *, init, inv, length, timeout=300):
     with Scratch("verif-apa-") as d:
         shutil.copy(os.path.join(SPEC, module + ".tla"), d)
         t0 = time.time()
+        p = subprocess.Popen(["apalache-mc", "check", "--init=" + init, "--inv=" + inv, "--length=%d" % length,
+                              "--out-dir=" + os.path.join(d, "out"), module + ".tla"], cwd=d, env=env_with(),
+                             stdout=subprocess.PIPE, stderr=subprocess.STDOUT, text=True, errors="replace",
+                             start_new_session=True)
         try:
-            p = subprocess.run(["apalache-mc", "check", "--init=" + init, "--inv=" + inv, "--length=%d" % length,
-                                "--out-dir=" + os.path.join(d, "out"), module + ".tla"], cwd=d, env=env_with(),
-                               stdout=subprocess.PIPE, stderr=subprocess.STDOUT, text=True, errors="replace", timeout=timeout)
+            out, _ = p.communicate(timeout=timeout)
         except subprocess.TimeoutExpired:
+            try:
+                os.killpg(p.pid, signal.SIGKILL)     # the wrapper script AND its JVM, nothing else
+            except ProcessLookupError:
+                pass
+            p.communicate()
             raise MachineryError("apalache timed out on %s (%s)" % (module, inv))
-        out = p.stdout
         wall = time.time() - t0
     if "The outcome is: NoError" in out and p.returncode == 0:
         return True, wall, out
